@@ -1,0 +1,7 @@
+//go:build !verif
+
+package server
+
+// verifPoint marks a scheduling point for the verification harnesses in /verif
+// (build tag "verif"). It does nothing in normal builds.
+func verifPoint(string) {}
